@@ -239,10 +239,10 @@ Theorem h_liquidate_inv w r e ab lb n w' :
               b1 b1' b2 b2' b3 b3' b4 b4' bl2 ba2 ba3 bl3 ee3 er3 ha' hl' f.
 Proof.
   intros [Hbanks Haccts] Hre H. unfold h_liquidate in H.
-  apply bind_ok in H as (u1 & Hn & H). apply check_ok in Hn.
-  apply bind_ok in H as (u2 & Hne & H). apply check_ok in Hne.
   apply bind_ok in H as (ha & Hha & H). apply bind_ok in H as (hl & Hhl & H).
   apply bind_ok in H as (u3 & _ & H).
+  apply bind_ok in H as (u1 & Hn & H). apply check_ok in Hn.
+  apply bind_ok in H as (u2 & Hne & H). apply check_ok in Hne.
   apply bind_ok in H as (ee & Hee & H). apply bind_ok in H as (er & Her & H).
   apply bind_ok in H as (u4 & _ & H).
   apply bind_ok in H as (u5 & _ & H).
